@@ -451,6 +451,9 @@ fn header_focus(rng: &mut Rng, routes: &mut Vec<Value>, probes: &mut Vec<Value>)
 fn trigger_focus(rng: &mut Rng, routes: &mut Vec<Value>, probes: &mut Vec<Value>, trace: bool) {
     // with traces on, the matchers that keep a per-request memo of evaluated conditions (datetime) get more weight
     let kind = if trace && rng.chance(1, 2) { "dt" } else { *rng.pick(&["methods", "ips", "dt", "time", "wd", "scheme", "host"]) };
+    // host focus, nested patterns: several rules on the SAME host pattern, and patterns that are a prefix of one another
+    // (the host index is a regex tree whose nodes carry the common prefix: a leaf may sit under a node with its own pattern)
+    let nested_hosts = kind == "host" && rng.chance(1, 2);
     for r in routes.iter_mut() {
         let fresh = gen_route(rng, "tmp");
         for k in ["methods", "excl", "ips", "dt", "time", "wd", "scheme", "host"] { r[k] = Value::Null; }
@@ -474,9 +477,11 @@ fn trigger_focus(rng: &mut Rng, routes: &mut Vec<Value>, probes: &mut Vec<Value>
             // lists of different lengths, one a prefix of another: the date/time layer groups rules by their weekday LIST
             "wd" => { r["wd"] = match rng.below(5) { 0 => json!(["Mon"]), 1 => json!(["Mon", "Tue"]), 2 => json!(["Mon", "Tue", "Sat"]), _ => json!([*rng.pick(DAYS), *rng.pick(DAYS)]) }; }
             "scheme" => { r["scheme"] = fresh["scheme"].clone(); }
+            _ if nested_hosts => { r["host"] = match rng.below(6) { 0 | 1 | 2 => json!({"t": "@m.a.com", "m": [["m", "[a-z]+"]]}), 3 => json!({"t": "@m.a.com.uk", "m": [["m", "[a-z]+"]]}), 4 => json!({"t": "@m.a.co", "m": [["m", "[a-z]+"]]}), _ => json!({"s": "foo.a.com"}) }; }
             _ => { r["host"] = fresh["host"].clone(); }
         }
     }
+    if nested_hosts { for p in probes.iter_mut() { p["host"] = json!(*rng.pick(&["foo.a.com", "foo.a.com", "foo.a.com.uk", "foo.a.co", "a.com"])); } }
     for p in probes.iter_mut() { p["path"] = json!("/x"); if p["time"].is_null() && (kind == "dt" || kind == "time" || kind == "wd") { p["time"] = json!(*rng.pick(TIMES)); } if p["addr"].is_null() && kind == "ips" && rng.chance(3, 4) { p["addr"] = json!(*rng.pick(ADDRS)); } }
 }
 
